@@ -39,7 +39,9 @@ ASSUMPTIONS = [
     "file faults are injected by replacing the name `open` in ledger.pin's namespace",
 ]
 DEFAULT = b"abcd1234"
-REACTIONS = ["accept", "refuse", "swerr", "comm", "ack-lost", "timeout"]
+# "refuse-odd": refused in band with an answer byte that is neither the 'changed' nor the plain
+# 'not changed' value
+REACTIONS = ["accept", "refuse", "refuse-odd", "swerr", "comm", "ack-lost", "timeout"]
 # "dir-no-create": the PIN file itself may be rewritten, but no entry may be created in, renamed
 # into or removed from its directory (a file bind-mounted alone, a root-owned directory)
 FILE_FAULTS = [None, "open", "write", "dir-no-create"]
@@ -66,7 +68,8 @@ def start_op(draw):
 def cases(draw, tier):
     return {"platform": draw(st.sampled_from(["Ledger", "SGX"])),
             "path_style": draw(st.sampled_from(PATH_STYLES + ["plain"])),
-            "file0": draw(st.sampled_from(["present", "absent", "absent", "invalid"])),
+            "file0": draw(st.sampled_from(["present", "absent", "absent", "invalid",
+                                           "present-padded"])),
             "starts": draw(st.lists(start_op(), min_size=1, max_size=6))}
 
 
@@ -94,7 +97,8 @@ def pin_path(style, name="pin.txt"):
 def single_starts(tier, seed):
     out = []
     for style, plat, file0, force, reaction, ff, crash in itertools.product(
-            PATH_STYLES, ["Ledger", "SGX"], ["present", "absent", "invalid"], [False, True],
+            PATH_STYLES, ["Ledger", "SGX"], ["present", "absent", "invalid", "present-padded"],
+            [False, True],
             REACTIONS, FILE_FAULTS, CRASHES):
         out.append({"platform": plat, "file0": file0, "path_style": style,
                     "starts": [{"force": force, "reaction": reaction, "file_fault": ff,
@@ -242,6 +246,10 @@ def run_case(c):
     if c["file0"] == "present":
         with real_open(pf, "wb") as f:
             f.write(DEFAULT)
+    elif c["file0"] == "present-padded":
+        # the PIN with white space around it, as an editor may leave it (the loader strips it)
+        with real_open(pf, "wb") as f:
+            f.write(b"\n " + DEFAULT + b" \r\n")
     elif c["file0"] == "invalid":
         with real_open(pf, "wb") as f:
             f.write(b"not a pin!")
